@@ -6,7 +6,7 @@ st=$(git -C /repo status --porcelain | grep -v '^??')
 for d in seeded/*/; do
   id=$(basename $d); pid=${id%%-*}
   [ -n "$1" ] && [ "$pid" != "$1" ] && continue
-  if git -C /repo apply $d/patch.diff 2>/dev/null; then
+  if git -C /repo apply /verif/$d/patch.diff 2>/dev/null; then
     out=$(./check $pid 2>&1)
     if echo "$out" | grep -q "^VIOLATION"; then
       echo "$id DETECTED $(echo "$out" | grep '^  violation' | grep -v '/floor' | head -2 | sed 's/  violation rule=//' | cut -c1-110 | tr '\n' ';')"
